@@ -29,6 +29,8 @@ pub use alertlog::Alert;
 pub use connection::Connection;
 pub use routing::Router;
 pub use waiters::Waiters;
+#[cfg(rumqtt_verif)]
+pub use scheduler::{PauseReason, ScheduleReason, Status, Tracker};
 
 pub const MAX_SCHEDULE_ITERATIONS: usize = 100;
 pub const MAX_CHANNEL_CAPACITY: usize = 200;
